@@ -253,6 +253,12 @@ func (rs *runState) movePivot(n int) bool {
 		rs.res.Probe("pivot-move-after-split-storage-progress")
 		rs.chunkAtMove = c
 	}
+	for i := rs.pivot; i < rs.pivot+n; i++ {
+		if rs.w.multiCode[i] {
+			rs.res.Probe("pivot-gap-block-with-repeated-code-change")
+			break
+		}
+	}
 	rs.w.Import(rs.pivot + n)
 	rs.writeHeaders(rs.pivot+1, rs.pivot+n)
 	if rs.p.Ver == 2 {
@@ -934,6 +940,12 @@ func (rs *runState) flatDiff() string {
 	for _, a := range final.Accounts {
 		if len(out) >= 3 {
 			break
+		}
+		if blob := rawdb.ReadAccountSnapshot(rs.db, a.Hash); len(blob) > 0 {
+			if got, err := types.FullAccount(blob); err == nil && (got.Nonce != a.Acc.Nonce || !got.Balance.Eq(a.Acc.Balance) || !bytes.Equal(got.CodeHash, a.Acc.CodeHash)) {
+				out = append(out, fmt.Sprintf("account %x: Node B has nonce %d balance %v code %x, pivot state has nonce %d balance %v code %x", a.Hash[:6],
+					got.Nonce, got.Balance, got.CodeHash[:4], a.Acc.Nonce, a.Acc.Balance, a.Acc.CodeHash[:4]))
+			}
 		}
 		for _, sl := range a.Storage {
 			got, _ := mem.Get(append(append(append([]byte{}, rawdb.SnapshotStoragePrefix...), a.Hash[:]...), sl.K...))
